@@ -88,16 +88,16 @@ func VP_C06_stream() {
 
 //vp:property C06
 //vp:set reads 2 3
-//vp:set sizes 9 12
-//vp:set loopmax 600000 600000
-//vp:set maxsteps 4000000 40000000
+//vp:set sizes 9 13
+//vp:set loopmax 3000000 3000000
+//vp:set maxsteps 30000000 80000000
 //vp:set budget 300 1500
-//vp:bounds backend->client through the packet loop (the relay function is reached only through Process, so its name and signature are free to change): a channel-create is processed (host policy allowing, dial succeeding) and the relay goroutine it starts carries a host stream delivered in `reads` socket reads of a size drawn from {0,1,2,255,4085,4086,4087,65535,65536,(thorough: 256,70000,131072)} (first/middle/last byte symbolic), after which the host hangs up; the gateway's configured socket buffer sizes are drawn from {0, 4096, 65535, 65536, 262144}
+//vp:bounds backend->client through the packet loop (the relay function is reached only through Process, so its name and signature are free to change): a channel-create is processed (host policy allowing, dial succeeding) and the relay goroutine it starts carries a host stream delivered in `reads` socket reads of a size drawn from {0,1,2,255,4085,4086,4087,65536,300000 (a burst that saturates every read, whatever the buffer grows to),(thorough: 65535,256,70000,131072)} (first/middle/last byte symbolic), after which the host hangs up; the gateway's configured socket buffer sizes are drawn from {0, 65536, 262144}
 //vp:reach relayed
 func VP_C06_relay_via_process() {
 	vpResetC01()
-	sizes := []int{0, 1, 2, 255, 4085, 4086, 4087, 65535, 65536, 256, 70000, 131072}
-	bufs := []int{0, 4096, 65535, 65536, 262144}
+	sizes := []int{0, 1, 2, 255, 4085, 4086, 4087, 65536, 300000, 65535, 256, 70000, 131072}
+	bufs := []int{0, 65536, 262144}
 	var stream []byte
 	for i := 0; i < vpParam("reads"); i++ {
 		is := strconv.Itoa(i)
